@@ -29,6 +29,22 @@ def gen_facts(tier):
         F.append(factmod.Fact("capacity/int/%s" % T.short, "cnl::_impl::to_chars_capacity<%s>{}()" % T.name, None,
                               judge=lambda v, need=need, T=T: None if v >= need else "capacity %d < %d characters needed for %d" % (v, need, T.min if T.signed else T.max)))
         F.append(factmod.Fact("static-result/int/%s" % T.short, "sizeof(decltype(cnl::to_chars_static(std::declval<%s>()).chars)) == cnl::_impl::to_chars_capacity<%s>{}() + 1" % (T.name, T.name), 1))
+    # wide and elastic integers: the capacity formula is a function of the digit count alone, and approximations of
+    # log10(2) go wrong at specific digit counts only (d*3/10 is first short at d = 103), so the count is swept
+    wd = [31, 63, 64, 100, 103, 113, 127, 128, 129, 193, 196, 200, 203, 206, 255, 256, 300, 500, 1000] if tier == "quick" else sorted(set(list(range(8, 300, 1)) + [500, 777, 1000, 2000]))
+    for d in wd:
+        for sg, nm in ((True, "int"), (False, "unsigned")):
+            T = "cnl::wide_integer<%d, %s>" % (d, nm)
+            need = len(str(2 ** d - 1)) + (1 if sg else 0)
+            F.append(factmod.Fact("capacity/wide/%d%s" % (d, "s" if sg else "u"), "cnl::_impl::to_chars_capacity<%s>{}()" % T, None, may_reject=True,
+                                  judge=lambda v, need=need, d=d, sg=sg: None if v >= need else "capacity %d < %d characters needed for the %s %d-digit value" % (v, need, "most negative" if sg else "largest", d),
+                                  meta=dict(anchor="include/cnl/_impl/charconv/to_chars_capacity.h")))
+    for d in ([1, 7, 14, 20, 31, 40, 63] if tier == "quick" else range(1, 64)):
+        for sg, nm in ((True, "int"), (False, "unsigned")):
+            T = "cnl::elastic_integer<%d, %s>" % (d, nm)
+            need = len(str(2 ** d - 1)) + (1 if sg else 0)
+            F.append(factmod.Fact("capacity/elastic/%d%s" % (d, "s" if sg else "u"), "cnl::_impl::to_chars_capacity<%s>{}()" % T, None, may_reject=True,
+                                  judge=lambda v, need=need, d=d: None if v >= need else "capacity %d < %d characters needed for a %d-digit elastic value" % (v, need, d)))
     # scaled_integer: whether to_chars succeeds within the static capacity depends on the layout arithmetic (fixed vs
     # scientific, truncation), which is not decided here.  What is decided is the arithmetic of the capacity formula
     # itself for integral scaled types (exponent >= 0, where no truncation of the integer part is possible in fixed
